@@ -19,6 +19,7 @@ type SpecEnv struct {
 	st        *State
 	old       *State
 	loopEntry *State
+	iterSt    *State // state at the start of the current loop iteration (loop step clauses)
 	vars      map[string]Val
 	fn        *ssa.Function
 	lp        *Loop
@@ -775,6 +776,20 @@ func (e *SpecEnv) call(x *SExpr) Val {
 			v := e.eval(args[0])
 			e.st, e.inOld, e.localSt = saved, savedIn, savedLocal
 			return v
+		case "atiter":
+			if e.iterSt == nil {
+				e.fail("atiter() outside a loop step clause")
+			}
+			{
+				saved, savedIn, savedLocal := e.st, e.inOld, e.localSt
+				if !e.inOld {
+					e.localSt = e.st // locals keep their current values; only memory is that of the iteration start
+				}
+				e.st, e.inOld = e.iterSt, true
+				v := e.eval(args[0])
+				e.st, e.inOld, e.localSt = saved, savedIn, savedLocal
+				return v
+			}
 		case "atloop":
 			if e.loopEntry == nil {
 				e.fail("atloop() outside a loop invariant")
